@@ -38,6 +38,9 @@ GROUPS = {
 def plan(tier, seed):
     shards = [("group", g) for g in GROUPS] + [("uniq_u", g) for g in GROUPS] + [("uniq_hkl", g) for g in GROUPS]
     shards.append(("alias",))
+    names = list(GROUPS)
+    for a in names:
+        shards.append(("history", a, 2 if tier == "quick" else 3))
     k = seed % len(shards)
     return shards[k:] + shards[:k]
 
@@ -99,12 +102,15 @@ def _run_group(desc):
 
 def _ubis(name, seed):
     order, cells = GROUPS[name]
-    rots = O.generic_rotations(seed)
+    # generic rotations plus near-180-degree rotations about the axes (every orbit member can then have a negative trace)
+    rots = O.generic_rotations(seed) + [O.rotation_from_axis_angle(a, 170.0) for a in ((1, 0, 0), (0, 1, 0), (0, 0, 1), (1, 1, 0), (0, 1, 1), (1, 0, -1))]
     out = []
     for ci, cell in enumerate(cells):
         B = O.cell_to_B(cell)
-        for ri in range(3):
-            U = rots[(ci * 3 + ri) % len(rots)]
+        for ri in range(len(rots)):
+            if ri < 6 and ri // 3 != ci:
+                continue
+            U = rots[ri]
             out.append((cell, np.linalg.inv(np.dot(U, B))))
     return out
 
@@ -207,13 +213,48 @@ def _run_alias(desc):
     return sh
 
 
+def _run_history(desc):
+    """call histories of the group constructors in one process (they share a module-level cache): for every sequence
+    first, then any one (thorough: two) other constructors, the groups obtained afterwards must still be the right ones"""
+    _, first, depth = desc
+    from ImageD11 import sym_u
+    sh = Shard()
+    names = list(GROUPS)
+    ref = {}
+    for n in names:
+        sym_u.symcache.clear()
+        ref[n] = [np.array(o, float) for o in getattr(sym_u, n)().group]
+    for rest in itertools.product(names, repeat=depth - 1):
+        seq = (first,) + rest
+        sym_u.symcache.clear()
+        for n in seq:
+            getattr(sym_u, n)()
+        for n in set(seq):
+            ops = [np.array(o, float) for o in getattr(sym_u, n)().group]
+            if len(ops) != len(ref[n]) or any(member_index(ref[n], o) < 0 for o in ops):
+                sh.violation("%s:group-changed-by-constructing-other-groups" % n, {"kind": "history", "history": list(seq), "group": n},
+                             {"order_now": len(ops), "order_expected": len(ref[n])})
+                break
+        sh.evaluations += 1
+        sh.nontrivial += 1
+    sym_u.symcache.clear()
+    sh.sample({"kind": "history", "history": list(seq)}, limit=1)
+    sh.outcomes.add(("history", first))
+    return sh
+
+
 def run_shard(desc):
+    if desc[0] == "history":
+        return _run_history(desc)
     return {"group": _run_group, "uniq_u": _run_uniq_u, "uniq_hkl": _run_uniq_hkl, "alias": _run_alias}[desc[0]](desc)
 
 
 def replay(case):
     kind = case["kind"]
-    if kind == "alias":
+    if kind == "history":
+        r = _run_history(("history", case["history"][0], len(case["history"])))
+        r.violations = [v for v in r.violations if v["case"]["history"] == case["history"]]
+    elif kind == "alias":
         r = _run_alias(("alias",))
     else:
         r = run_shard((kind, case["group"]))
